@@ -909,6 +909,9 @@ ASMJIT_API Error CodeHolder::resolve_cross_section_fixups() noexcept {
         it.resolve_and_next(this);
         continue;
       }
+
+      // The displacement cannot be encoded - the fixup stays unresolved and the caller has to know about it.
+      err = make_error(Error::kInvalidDisplacement);
     }
 
     it.next();
